@@ -81,7 +81,7 @@ class Scheduler:
         """
         if isinstance(event, DelayedEvent):
             if event.delay > 0:
-                event.delay -= dt
+                event.delay = round(event.delay - dt, 10)  # no float residue (0.7 - 7*0.1 is 1.1e-16, not 0)
                 self.delayed_events += [event]
                 return None
         return event
